@@ -75,6 +75,12 @@ def cases(tier):
         out.append(dict(name="%s_unexp_Y_nodistrict" % pi[:2], pi=pi, alphas=alphas, estimands=["turnout"], units=us, office="Y",
                         unit_type="county-district", aggregates=["postal_code", "county_fips", "unit"], cut_calibration=True,
                         weight=nrep + 8))
+        # a baseline unit whose feed row has turnout but not yet the other estimand (both unreporting policies)
+        for policy in ("drop", "zero"):
+            out.append(dict(name="%s_partial_null_%s" % (pi[:2], policy), pi=pi, alphas=alphas, estimands=["dem", "turnout"],
+                            units=P.standard_units(nrep, 1, [P.U("c2_p0", "partial", county="c2"), EXTRA["unexp_known"](1)], cls=True),
+                            aggregates=["postal_code", "county_fips", "unit"], handle_unreporting=policy, cut_calibration=True,
+                            weight=nrep + 10))
         out.append(dict(name="%s_two_estimands" % pi[:2], pi=pi, alphas=alphas, estimands=["dem", "turnout"],
                         units=P.standard_units(nrep, 1, [EXTRA["unexp_new"](0), EXTRA["block"](1)], cls=True),
                         aggregates=["postal_code", "county_fips", "unit"], cut_calibration=True, weight=nrep + 10))
@@ -112,6 +118,10 @@ def classify(sc, u, case):
     policy = case.get("handle_unreporting", "drop")
     if not u.in_baseline:
         return "unexpected"
+    if u.kind == "partial":
+        # only turnout has arrived: under 'drop' the row leaves the modelled data and is passed through like a unit that is not
+        # expected; under 'zero' the missing count becomes 0 and the unit is treated as not reporting
+        return "unexpected" if policy == "drop" else "expected:non"
     v = u.vals
     if not u.in_feed:
         if policy == "drop":
@@ -141,7 +151,10 @@ def live(u, est, policy):
         return 0
     if est == "margin":
         return u.vals["results_dem"] - u.vals["results_gop"]
-    return u.vals["results_%s" % est]
+    val = u.vals["results_%s" % est]
+    if sym.is_special(val):
+        return 0  # a count that has not arrived contributes nothing
+    return val
 
 
 def expected_groups(sc, case, level_cols, cats):
@@ -205,6 +218,8 @@ def run(ctx, case):
         obl.append(("unit %s reporting flag" % f, int(row["reporting"]) == (1 if c == "expected:rep" else 0)))
         u = next(x for x in sc.units if x.fips == f)
         for est in case["estimands"]:
+            if u.kind == "partial" and sym.is_special(u.vals["results_%s" % est]):
+                continue
             obl.append(("unit %s counted %s" % (f, est), AEQ(row["results_%s" % est], live(u, est, policy))))
     for table in LEVELS:
         if table not in res:
